@@ -43,6 +43,8 @@ def run(res, proofs_ok, proofs_why):
                 why.append("bytes written by the daemon, decoded with the offsets of PROTOCOL.md: %s reserved %s; published %s" % (got, d["reserved"], rec))
             if (d["magic0"], d["magic1"]) != F.MAGIC or d["version"] != 1 or d["generation"] % 2 != 0 or d["generation"] == 0:
                 why.append("header written by the daemon does not follow PROTOCOL.md: %s" % {k: d[k] for k in ("magic0", "magic1", "size", "version", "generation")})
+            if F.oracle_open(r["kind"], r["data"]) != "ok" and (len(after) != 72 or d["size"] != 72):
+                why.append("the file the daemon laid out anew is %d bytes long and declares %d: PROTOCOL.md gives the segment 72 bytes in all" % (len(after), d["size"]))
             wm = r["wrt_model"]
             mbytes = bytes(int(x) for x in wm.split()[1:]) if wm.startswith("W:ok") else None
             if mbytes != after:
@@ -76,6 +78,41 @@ def run(res, proofs_ok, proofs_why):
                                                                             "(same segment, same instant); from the record that was in the segment when the call started the model gives %s" % (cc, rr, mm)]})
         elif rr != mm:
             diffs.append({"case": {"line": ln}, "what": "publication during the call: both libraries %s, model on the record present at the start of the call %s" % (rr, mm)})
+    # a client that has attached but not called yet, and a header that changes under it before its first call
+    # (the daemon begins an update, or is restarted over the segment): it holds no snapshot, so it answers
+    # from the empty record - both libraries alike
+    import os, shutil
+    root = os.path.join(c.BUILD, "scratch", "sgo-%d" % os.getpid())
+    shutil.rmtree(root, ignore_errors=True)
+    os.makedirs(root)
+    slines = {"rust": [], "c": []}
+    smeta = []
+    for k in range(12 if res.tier == "quick" else 300):
+        recv = F.rand_record(rng)
+        recv = recv[:6] + (rng.choice([1, 2]),)
+        what = 1 + k % 3
+        real = rng.randrange(10 ** 9) * NS + rng.randrange(NS)
+        mono = recv[0] * NS + recv[1] + rng.choice([0, 1, 2 * NS, 6 * NS])
+        for who in ("rust", "c"):
+            pth = os.path.join(root, "%s-%d" % (who, k))
+            with open(pth, "wb") as fh:
+                fh.write(F.header(gen=rng.choice([2, 4, 100])) + F.record(recv))
+            slines[who].append("sgo %s %d %d %d %d %d" % (pth, real // NS, real % NS, mono // NS, mono % NS, what))
+        smeta.append((recv, what, real, mono))
+    s_rust = c.run_lines(c.build_harness("debug")[0], slines["rust"])
+    s_c = c.run_lines(F.build_c_driver(), slines["c"], args=())
+    s_model = c.run_model(["cba 0 0 0 0 0 0 0 %d %d %d %d" % (real // NS, real % NS, mono // NS, mono % NS) for (_r, _w, real, mono) in smeta])
+    shutil.rmtree(root, ignore_errors=True)
+    for (recv, what, real, mono), rr, cc, mm in zip(smeta, s_rust, s_c, s_model):
+        res.evaluations += 1
+        res.count("gen:header changes between open and first call")
+        res.nontriv(str((recv, what)))
+        want = "K:ok N:" + mm.replace(" ", ":")
+        if rr != cc:
+            bad.append({"case": {"file": "valid segment %s; before the first call %s" % (recv, {1: "the generation turns odd", 2: "the version reads 0", 3: "the generation reads 0"}[what])},
+                        "why": ["C library %s, Rust client %s (same segment, same moment, both attached before the change and neither had called before)" % (cc, rr)]})
+        elif rr != want:
+            diffs.append({"case": {"record": list(recv), "what": what}, "what": "both libraries %s, model on the empty record %s" % (rr, want)})
     res.samples = [F.describe(results[i]) for i in (0, 5, len(results) - 1)]
     res.traces_validated = len(results) - len(diffs)
     res.oblige("correspondence:daemon bytes vs Layout.encode_header/encode_ceb; now() of both client libraries vs Client.compute_bound_at on the decoded record", not diffs)
